@@ -1,7 +1,8 @@
 #!/usr/bin/env python3
-"""Robustness / sensitivity test of the container-plan bridges (translator/effects.py,
-coq/theories/Bridge_effects.v): apply textual edits to a PRIVATE copy of the library, regenerate
-coq/gen with setup.sh's snippet, recompile Bridge_effects.v, restore the library.
+"""Robustness / sensitivity test of the plan bridges (translator/effects.py;
+coq/theories/Bridge_effects.v for the container functions, Bridge_effects_load.v for the decoder
+glue): apply textual edits to a PRIVATE copy of the library, regenerate coq/gen with setup.sh's
+snippet, recompile the bridge file the edit concerns, restore the library.
 
     VERIF_REPO=/path/to/private/libcbor tools/effects_mutation.py [edit-id-prefix ...]
 
@@ -26,9 +27,12 @@ with build.Workdir() as wd:
     print('unsupported:', [u for u in r['unsupported']])
 " 2>&1 | grep -v conda
 cd coq
-timeout 300 coqc -Q theories CB -Q gen CBGen gen/Gen_effects.v || { echo GEN-COMPILE-FAILED; exit 2; }
-if timeout 900 coqc -Q theories CB -Q gen CBGen theories/Bridge_effects.v > %(verif)s/coq/bridge_effects.log 2>&1; then echo BRIDGE-PASS; else echo BRIDGE-FAIL; fi
-""" % {"verif": VERIF}
+timeout 300 coqc -Q theories CB -Q gen CBGen gen/Gen_effects%(sfx)s.v || { echo GEN-COMPILE-FAILED; exit 2; }
+if timeout 1800 coqc -Q theories CB -Q gen CBGen theories/Bridge_effects%(sfx)s.v > %(verif)s/coq/bridge_effects.log 2>&1; then echo BRIDGE-PASS; else echo BRIDGE-FAIL; fi
+"""
+def regen(group):
+    return REGEN % {"verif": VERIF, "sfx": "_load" if group == "load" else ""}
+GLUE = ("src/cbor/internal/builder_callbacks.c", "src/cbor.c")
 A, M, B, S = "src/cbor/arrays.c", "src/cbor/maps.c", "src/cbor/bytestrings.c", "src/cbor/internal/stack.c"
 CHECK = "metadata->end_ptr >= metadata->allocated"
 TERN_A = """      size_t new_allocation = metadata->allocated == 0
@@ -78,6 +82,56 @@ REPL_BODY = """  if (index >= item->metadata.array_metadata.end_ptr) return fals
 TERN_B = """    size_t new_chunk_capacity =
         data->chunk_capacity == 0 ? 1
                                   : CBOR_BUFFER_GROWTH * (data->chunk_capacity);
+"""
+BC, CL = "src/cbor/internal/builder_callbacks.c", "src/cbor.c"
+BS_NULL = """  unsigned char* new_handle = _cbor_malloc(length);
+  if (new_handle == NULL) {
+    ctx->creation_failed = true;
+    return;
+  }
+
+  memcpy(new_handle, data, length);
+  cbor_item_t* new_chunk = cbor_new_definite_bytestring();
+"""
+BS_FREE = """  cbor_item_t* new_chunk = cbor_new_definite_bytestring();
+
+  if (new_chunk == NULL) {
+    _cbor_free(new_handle);
+    ctx->creation_failed = true;
+    return;
+  }
+"""
+LOAD_SWITCH = """    switch (decode_result.status) {
+      case CBOR_DECODER_FINISHED:
+        /* Everything OK */
+        {
+          result->read += decode_result.read;
+          break;
+        }
+      case CBOR_DECODER_NEDATA:
+        /* Data length doesn't match MTB expectation */
+        {
+          result->error.code = CBOR_ERR_NOTENOUGHDATA;
+          goto error;
+        }
+      case CBOR_DECODER_ERROR:
+        /* Reserved/malformed item */
+        {
+          result->error.code = CBOR_ERR_MALFORMATED;
+          goto error;
+        }
+    }
+"""
+LOAD_IFS = """    if (decode_result.status == CBOR_DECODER_ERROR) {
+      result->error.code = CBOR_ERR_MALFORMATED;
+      goto error;
+    } else if (decode_result.status == CBOR_DECODER_NEDATA) {
+      result->error.code = CBOR_ERR_NOTENOUGHDATA;
+      goto error;
+    } else if (decode_result.status == CBOR_DECODER_FINISHED) {
+      size_t consumed = decode_result.read;
+      result->read += consumed;
+    }
 """
 # (id, kind, [(file, old, new, count)])   kind: P = behaviour preserving, M = meaning changing
 EDITS = [
@@ -153,6 +207,78 @@ EDITS = [
  ("get-M1", "M", [(A, "  if (index >= item->metadata.array_metadata.end_ptr) return NULL;", "  if (index > item->metadata.array_metadata.end_ptr) return NULL;", 1)]),
  ("get-P1", "P", [(A, "  if (index >= item->metadata.array_metadata.end_ptr) return NULL;\n  return cbor_incref(((cbor_item_t**)item->data)[index]);",
                       "  if (index < cbor_array_size(item)) {\n    cbor_item_t* e = cbor_array_handle(item)[index];\n    cbor_incref(e);\n    return e;\n  }\n  return NULL;", 1)]),
+ # ---------------- decoder glue: builder_callbacks.c (BC) and cbor.c (CL) ----------------
+ ("append-P1", "P", [(BC, "  if (ctx->stack->size == 0) {\n    /* Top level item */", "  if (!(ctx->stack->size != 0)) {\n    /* Top level item */", 1),
+                     (BC, "      if (ctx->stack->top->subitems % 2) {", "      if ((ctx->stack->top->subitems % 2) != 0) {", 1)]),
+ ("append-P2", "P", [(BC, "        ctx->stack->top->subitems--;\n        if (ctx->stack->top->subitems == 0) {",
+                          "        size_t left = ctx->stack->top->subitems - 1;\n        ctx->stack->top->subitems = left;\n        if (left == 0) {", 2)]),
+ ("append-P3", "P", [(BC, "      cbor_tag_set_item(ctx->stack->top->item, item);\n      cbor_decref(&item); /* Give up on our reference */\n      cbor_item_t* tagged_item = ctx->stack->top->item;\n",
+                          "      cbor_item_t* tagged_item = ctx->stack->top->item;\n      cbor_tag_set_item(tagged_item, item);\n      cbor_decref(&item); /* Give up on our reference */\n", 1),
+                     (BC, "      cbor_decref(&item);\n      ctx->syntax_error = true;", "      ctx->syntax_error = true;\n      cbor_decref(&item);", 1),
+                     (BC, "        if (!cbor_array_push(ctx->stack->top->item, item)) {\n          ctx->creation_failed = true;\n        }\n        cbor_decref(&item);",
+                          "        bool pushed = cbor_array_push(ctx->stack->top->item, item);\n        cbor_decref(&item);\n        if (pushed) {\n        } else {\n          ctx->creation_failed = true;\n        }", 1)]),
+ ("append-M1", "M", [(BC, "      if (ctx->stack->top->subitems % 2) {", "      if (ctx->stack->top->subitems % 2 == 0) {", 1)]),
+ ("append-M2", "M", [(BC, "          cbor_item_t* stack_item = ctx->stack->top->item;\n          _cbor_stack_pop(ctx->stack);\n", "          cbor_item_t* stack_item = ctx->stack->top->item;\n", 1)]),
+ ("append-M3", "M", [(BC, "          ctx->creation_failed = true;\n          cbor_decref(&item);\n          break;", "          ctx->creation_failed = true;\n          break;", 2)]),
+ ("append-M4", "M", [(BC, "        if (ctx->stack->top->subitems == 0) {\n          cbor_item_t* stack_item", "        if (ctx->stack->top->subitems == 1) {\n          cbor_item_t* stack_item", 1)]),
+ ("append-M5", "M", [(BC, "      cbor_decref(&item); /* Give up on our reference */\n      cbor_item_t* tagged_item = ctx->stack->top->item;\n      _cbor_stack_pop(ctx->stack);\n",
+                          "      cbor_item_t* tagged_item = ctx->stack->top->item;\n      _cbor_stack_pop(ctx->stack);\n      cbor_decref(&item); /* Give up on our reference */\n", 1)]),
+ ("append-M6", "M", [(BC, "    ctx->root = item;\n    return;", "    return;", 1)]),
+ ("append-M7", "M", [(BC, "          cbor_item_t* map_entry = ctx->stack->top->item;\n          _cbor_stack_pop(ctx->stack);\n          _cbor_builder_append(map_entry, ctx);",
+                          "          _cbor_stack_pop(ctx->stack);\n          cbor_item_t* map_entry = ctx->stack->top->item;\n          _cbor_builder_append(map_entry, ctx);", 1)]),
+ ("append-M8", "M", [(BC, "        ctx->stack->top->subitems ^=\n            1;", "        ctx->stack->top->subitems += 1;", 1)]),
+
+ ("break-P1", "P", [(BC, "  if (ctx->stack->size > 0) {\n    cbor_item_t* item = ctx->stack->top->item;", "  if (ctx->stack->size != 0) {\n    cbor_item_t* item = ctx->stack->top->item;", 1)]),
+ ("break-P2", "P", [(BC, "        (item->type != CBOR_TYPE_MAP || ctx->stack->top->subitems % 2 == 0)) {", "        (!(item->type == CBOR_TYPE_MAP) || !(ctx->stack->top->subitems % 2))) {", 1)]),
+ ("break-P3", "P", [(BC, "  if (ctx->stack->size > 0) {\n    cbor_item_t* item = ctx->stack->top->item;",
+                         "  if (ctx->stack->size == 0) {\n    ctx->syntax_error = true;\n    return;\n  }\n  {\n    cbor_item_t* item = ctx->stack->top->item;\n    size_t halves = ctx->stack->top->subitems;", 1),
+                    (BC, "ctx->stack->top->subitems % 2 == 0)) {", "halves % 2 == 0)) {", 1)]),
+ ("break-M1", "M", [(BC, "ctx->stack->top->subitems % 2 == 0)) {", "ctx->stack->top->subitems % 2 == 1)) {", 1)]),
+ ("break-M2", "M", [(BC, "        (item->type != CBOR_TYPE_MAP || ctx", "        (item->type != CBOR_TYPE_MAP && ctx", 1)]),
+ ("break-M3", "M", [(BC, "    if (_cbor_is_indefinite(\n            item) && /* Only indefinite items can be terminated by 0xFF */", "    if (/* Only indefinite items can be terminated by 0xFF */", 1)]),
+ ("break-M4", "M", [(BC, "      _cbor_stack_pop(ctx->stack);\n      _cbor_builder_append(item, ctx);\n      return;", "      _cbor_builder_append(item, ctx);\n      _cbor_stack_pop(ctx->stack);\n      return;", 1)]),
+ ("break-M5", "M", [(BC, "  if (ctx->stack->size > 0) {\n    cbor_item_t* item = ctx->stack->top->item;", "  if (ctx->stack->size > 1) {\n    cbor_item_t* item = ctx->stack->top->item;", 1)]),
+ ("isindef-M1", "M", [(BC, "    case CBOR_TYPE_ARRAY:\n      return cbor_array_is_indefinite(item);", "    case CBOR_TYPE_ARRAY:\n      return cbor_array_is_definite(item);", 1)]),
+ ("isindef-P1", "P", [(BC, "    case CBOR_TYPE_MAP:\n      return cbor_map_is_indefinite(item);", "    case CBOR_TYPE_MAP:\n      return !cbor_map_is_definite(item);", 1)]),
+
+ ("bstr-P1", "P", [(BC, BS_NULL, BS_NULL.replace("if (new_handle == NULL) {", "if (!new_handle) {"), 1)]),
+ ("bstr-P2", "P", [(BC, BS_FREE, BS_FREE.replace("    _cbor_free(new_handle);\n    ctx->creation_failed = true;", "    ctx->creation_failed = true;\n    _cbor_free(new_handle);"), 1)]),
+ ("bstr-P3", "P", [(BC, "  memcpy(new_handle, data, length);\n  cbor_item_t* new_chunk = cbor_new_definite_bytestring();\n", "  cbor_item_t* new_chunk = cbor_new_definite_bytestring();\n", 1),
+                   (BC, "  cbor_bytestring_set_handle(new_chunk, new_handle, length);", "  memcpy(new_handle, data, length);\n  cbor_bytestring_set_handle(new_chunk, new_handle, length);", 1),
+                   (BC, "    if (!cbor_bytestring_add_chunk(ctx->stack->top->item, new_chunk)) {\n      ctx->creation_failed = true;\n    }",
+                        "    bool added = cbor_bytestring_add_chunk(ctx->stack->top->item, new_chunk);\n    if (added == false) ctx->creation_failed = true;", 1)]),
+ ("bstr-M1", "M", [(BC, BS_FREE, BS_FREE.replace("    _cbor_free(new_handle);\n", "    _cbor_free(new_handle);\n    _cbor_free(new_handle);\n"), 1)]),
+ ("bstr-M2", "M", [(BC, BS_FREE, BS_FREE.replace("    _cbor_free(new_handle);\n", ""), 1)]),
+ ("bstr-M3", "M", [(BC, "      ctx->creation_failed = true;\n    }\n    cbor_decref(&new_chunk);\n  } else {\n    _cbor_builder_append(new_chunk, ctx);\n  }\n}\n\nvoid cbor_builder_byte_string_start_callback",
+                        "      ctx->creation_failed = true;\n    }\n  } else {\n    _cbor_builder_append(new_chunk, ctx);\n  }\n}\n\nvoid cbor_builder_byte_string_start_callback", 1)]),
+ ("bstr-M4", "M", [(BC, "    if (!cbor_bytestring_add_chunk(ctx->stack->top->item, new_chunk)) {\n      ctx->creation_failed = true;\n    }\n    cbor_decref(&new_chunk);",
+                        "    cbor_item_t* keep = new_chunk;\n    cbor_decref(&new_chunk);\n    if (!cbor_bytestring_add_chunk(ctx->stack->top->item, keep)) {\n      ctx->creation_failed = true;\n    }", 1)]),
+ ("bstr-M5", "M", [(BC, "      cbor_bytestring_is_indefinite(ctx->stack->top->item)) {", "      cbor_bytestring_is_definite(ctx->stack->top->item)) {", 1)]),
+ ("bstr-M6", "M", [(BC, "  cbor_bytestring_set_handle(new_chunk, new_handle, length);", "  cbor_bytestring_set_handle(new_chunk, new_handle, length - 1);", 1)]),
+ ("bstr-M7", "M", [(BC, BS_NULL, BS_NULL.replace("    ctx->creation_failed = true;\n    return;", "    return;"), 1)]),
+
+ ("mapstart-M1", "M", [(BC, "    PUSH_CTX_STACK(ctx, res, size * 2);", "    PUSH_CTX_STACK(ctx, res, size);", 1)]),
+ ("mapstart-M2", "M", [(BC, "  cbor_item_t* res = cbor_new_definite_map(size);\n  CHECK_RES(ctx, res);\n  if (size > 0) {", "  cbor_item_t* res = cbor_new_definite_map(size);\n  CHECK_RES(ctx, res);\n  if (size > 1) {", 1)]),
+ ("mapstart-P1", "P", [(BC, "  cbor_item_t* res = cbor_new_definite_map(size);\n  CHECK_RES(ctx, res);\n  if (size > 0) {\n    PUSH_CTX_STACK(ctx, res, size * 2);\n  } else {\n    _cbor_builder_append(res, ctx);\n  }",
+                            "  cbor_item_t* res = cbor_new_definite_map(size);\n  CHECK_RES(ctx, res);\n  if (size == 0) {\n    _cbor_builder_append(res, ctx);\n    return;\n  }\n  size_t halves = 2 * size;\n  PUSH_CTX_STACK(ctx, res, halves);", 1)]),
+ ("push-ctx-M1", "M", [(BC, "      cbor_decref(&res);                                       \\\n      ctx->creation_failed = true;                             \\", "      ctx->creation_failed = true;                             \\", 1)]),
+
+ ("load-P1", "P", [(CL, "    if (source_size > result->read) { /* Check for overflows */", "    if (result->read < source_size) { /* Check for overflows */", 1),
+                   (CL, "          result->read += decode_result.read;", "          result->read = result->read + decode_result.read;", 1)]),
+ ("load-P2", "P", [(CL, "  } while (stack.size > 0);", "  } while (stack.size != 0);", 1), (CL, "  while (stack.size > 0) {\n    cbor_decref", "  while (stack.size) {\n    cbor_decref", 1)]),
+ ("load-P3", "P", [(CL, "      goto error;\n    } else if (context.syntax_error) {", "      goto error;\n    }\n    if (context.syntax_error) {", 1),
+                   (CL, "  if (source_size == 0) {", "  if (!source_size) {", 1)]),
+ ("load-P4", "P", [(CL, LOAD_SWITCH, LOAD_IFS, 1)]),
+ ("load-M1", "M", [(CL, "          result->error.code = CBOR_ERR_NOTENOUGHDATA;\n          goto error;", "          result->error.code = CBOR_ERR_MALFORMATED;\n          goto error;", 1)]),
+ ("load-M2", "M", [(CL, "  result->error.position = result->read;", "  result->error.position = result->read + 1;", 1)]),
+ ("load-M3", "M", [(CL, "    cbor_decref(&stack.top->item);\n    _cbor_stack_pop(&stack);", "    _cbor_stack_pop(&stack);\n    cbor_decref(&stack.top->item);", 1)]),
+ ("load-M4", "M", [(CL, "    if (context.creation_failed) {\n      /* Most likely unsuccessful allocation - our callback has failed */\n      result->error.code = CBOR_ERR_MEMERROR;\n      goto error;\n    } else if (context.syntax_error) {\n      result->error.code = CBOR_ERR_SYNTAXERROR;",
+                        "    if (context.syntax_error) {\n      result->error.code = CBOR_ERR_SYNTAXERROR;\n      goto error;\n    } else if (context.creation_failed) {\n      result->error.code = CBOR_ERR_MEMERROR;", 1)]),
+ ("load-M5", "M", [(CL, "  } while (stack.size > 0);", "  } while (stack.size > 1);", 1)]),
+ ("load-M6", "M", [(CL, ".error = {.code = CBOR_ERR_NODATA, .position = 0}};", ".error = {.code = CBOR_ERR_NOTENOUGHDATA, .position = 0}};", 1)]),
+ ("load-M7", "M", [(CL, "          result->read += decode_result.read;\n", "", 1)]),
+ ("load-M8", "M", [(CL, "    if (source_size > result->read) { /* Check for overflows */", "    if (source_size >= result->read) { /* Check for overflows */", 1)]),
+ ("load-M9", "M", [(CL, "    cbor_decref(&stack.top->item);\n    _cbor_stack_pop(&stack);", "    _cbor_stack_pop(&stack);", 1)]),
 ]
 
 def sh(cmd):
@@ -174,7 +300,8 @@ def main():
             open(p, "w").write(s.replace(old, new))
         if not okay:
             results.append((eid, kind, "edit-error")); continue
-        out = sh(REGEN)
+        group = "load" if any(f in GLUE for f, _, _, _ in subs) else "containers"
+        out = sh(regen(group))
         lines = [l for l in out.split("\n") if l.strip()]
         verdict = "PASS" if "BRIDGE-PASS" in out else ("FAIL" if "BRIDGE-FAIL" in out else "ERROR")
         uns = [l for l in lines if l.startswith("unsupported:")]
@@ -184,7 +311,7 @@ def main():
             m = re.search(r'line (\d+)', log)
             if m:
                 ln = int(m.group(1))
-                src = open(os.path.join(VERIF, "coq", "theories", "Bridge_effects.v")).read().split("\n")
+                src = open(os.path.join(VERIF, "coq", "theories", "Bridge_effects%s.v" % ("_load" if group == "load" else ""))).read().split("\n")
                 for i in range(ln - 1, -1, -1):
                     if src[i].startswith("Lemma"):
                         where = src[i].split()[1]; break
@@ -194,7 +321,7 @@ def main():
         print("%-12s %s -> %-5s %-34s %s %s" % (eid, kind, verdict, where, uns[0] if uns else "", "" if expected else "<<< UNEXPECTED"), flush=True)
         results.append((eid, kind, verdict, where))
     sh("git -C %s checkout -- ." % REPO)
-    sh(REGEN)   # leave coq/gen regenerated from the restored tree
+    sh(regen("containers")); sh(regen("load"))   # leave coq/gen regenerated from the restored tree
     try:
         os.remove(os.path.join(VERIF, "coq", "bridge_effects.log"))
     except OSError:
